@@ -329,7 +329,11 @@ def m_fclose(I, st, fr, n, this, args, an):
     root = fileroot(args[0])
     I.emit('fclose', st, node=n, root=root, fval=args[0])
     st.comps[('closed', root)] = True
-    return [(st, C(0))]
+    # 0, or EOF when flushing failed (the stream is gone either way): one named unknown per call site, so that only code that
+    # looks at the result distinguishes the two
+    nm = '$fclose%s' % n.get('_id')
+    st.sym[nm] = (-1, 0)
+    return [(st, sym(nm))]
 
 
 def m_console(I, st, fr, n, this, args, an):
